@@ -909,6 +909,9 @@ func (e RxEngine) Run(t *testing.T, ctx *kit.Ctx, sc *kit.Scenario[RxConfig, RxO
 			if len(frame) >= 2 {
 				cut := 1 + (len(frame)*7+step)%(len(frame)-1)
 				af.onPkt(enc.NewWireReader(enc.Wire{append([]byte(nil), frame[:cut]...), append([]byte(nil), frame[cut:]...)}))
+				// an empty segment is a legal piece of a segmented buffer (an empty fragment, an empty content block)
+				a, b := append([]byte(nil), frame[:cut]...), append([]byte(nil), frame[cut:]...)
+				af.onPkt(enc.NewWireReader([]enc.Wire{{{}, a, b}, {a, {}, b}, {a, b, {}}, {a, {}, {}, b}}[step%4]))
 				if len(frame) >= 6 {
 					c2 := cut / 2
 					if c2 > 0 && c2 < cut {
